@@ -158,3 +158,19 @@ impl<TS: TimeSource> ClaimTable<TS> {
 }
 
 // TODO: test
+
+// ---- verification hook (guarded) ----
+#[cfg(feature = "dswd_vpncloud_verif")]
+impl<TS: TimeSource> ClaimTable<TS> {
+    /// Read-only dump: (claims as (peer, range, expiry), cache as (address, peer, expiry)), both sorted.
+    #[allow(clippy::type_complexity)]
+    pub fn verif_dump(&self) -> (Vec<(SocketAddr, Range, Time)>, Vec<(Address, SocketAddr, Time)>) {
+        let mut claims: Vec<(SocketAddr, Range, Time)> =
+            self.claims.iter().map(|e| (e.peer, e.claim, e.timeout)).collect();
+        claims.sort_by_key(|(p, r, t)| (*p, r.base.len, r.base.data, r.prefix_len, *t));
+        let mut cache: Vec<(Address, SocketAddr, Time)> =
+            self.cache.iter().map(|(a, v)| (*a, v.peer, v.timeout)).collect();
+        cache.sort_by_key(|(a, p, t)| (a.len, a.data, *p, *t));
+        (claims, cache)
+    }
+}
